@@ -146,7 +146,7 @@ func init() {
 		}
 		rec([]byte{})
 		// longer inputs, seeded: the same alphabet plus arbitrary bytes
-		cc := Conc{a.Rand()}
+		cc := Conc{r: a.Rand()}
 		nr := 20000
 		if a.Tier == "thorough" {
 			nr = 300000
